@@ -1,7 +1,10 @@
 ------------------------------- MODULE Gen_Eap -------------------------------
 (* C14 (EAP codec and EAP-AKA' framing), C15 (AT_MAC on built and on received packets, any attribute order), C16 (PRF').                 *)
 EXTENDS EapLife, KeyLife, Pools
+CONSTANT Kinds       \* which vector kinds this run prints (a subset of AllKinds)
 VARIABLES stage, kind, i
+AllKinds == {"eap", "code", "set", "sender", "receiver", "prf", "unknown"}
+ASSUME Kinds \subseteq AllKinds
 
 Perms(n) == { f \in [1..n -> 1..n] : \A a, b \in 1..n : a # b => f[a] # f[b] }
 Permute(s, f) == [j \in 1..Len(s) |-> s[f[j]]]
@@ -17,6 +20,15 @@ EapVector(d) ==
                    Step("eap_reencode", "C12", FALSE, [wire |-> w], ExpectEapReencode(w)),
                    \* C14 itself: a decoded, unmodified packet encodes to the well-formed packet again (same octets, so padding and lengths intact)
                    Step("eap_reencode", "C14", FALSE, [wire |-> w], ExpectEapReencode(w)) >>)
+
+\* decoded packets with several attributes the library has no name for: they cannot be built through the setter, only
+\* decoded; encoding them repeatedly must give identical octets and decode/encode must be stable (C12 C20)
+UnknownAttrVector(j) ==
+  LET ua(t, n) == [t |-> t, rsv |-> 0, v |-> D(n, t), pad |-> << >>]
+      w == [code |-> 1, id |-> 40 + j, m |-> "aka", sub |-> 1, rsv |-> 0,
+            attrs |-> << AkaAttrPlain(AV(AT_RAND, 16)), ua(135, 2), ua(136 + j, 6), ua(13, 2), ua(12, 2), ua(200, 10), AkaAttrPlain(AV(AT_MAC, 16)) >>]
+      b == EncEapW(w) IN
+  Vector("eap_unknown", [q \in 1..6 |-> Step("eap_reencode", IF q % 2 = 0 THEN "C12" ELSE "C20", FALSE, [wire |-> b], [stable |-> TRUE] @@ ExpectEapReencode(b))])
 
 \* all codes with and without data (only the codes of the domain carry an expectation beyond "no crash")
 CodeVector(c) ==
@@ -96,14 +108,15 @@ PrfVector(a, b, c) ==
             IF KeyLens16[a] = 0 \/ KeyLens16[b] = 0 THEN [panic |-> FALSE, err |-> TRUE, haskeys |-> FALSE]
             ELSE [panic |-> FALSE, err |-> FALSE] @@ PrfPrimeRec) >>)
 
-Count(k) == CASE k = "eap" -> Len(EapPool) [] k = "code" -> 256 [] k = "set" -> 7 [] k = "sender" -> Len(EapPool) [] k = "receiver" -> Len(ReceiverSeq)
+Count(k) == CASE k = "unknown" -> 8 [] k = "eap" -> Len(EapPool) [] k = "code" -> 256 [] k = "set" -> 7 [] k = "sender" -> Len(EapPool) [] k = "receiver" -> Len(ReceiverSeq)
               [] k = "prf" -> 49 * Len(IdPool)
 SetTypes == << AT_RAND, AT_AUTN, AT_RES, AT_MAC, AT_KDF_INPUT, AT_KDF, AT_CHECKCODE >>
 Init == stage = 0 /\ kind = "" /\ i = 0
-Next == \/ stage = 0 /\ stage' = 1 /\ kind' \in {"eap", "code", "set", "sender", "receiver", "prf"} /\ i' = 0
+Next == \/ stage = 0 /\ stage' = 1 /\ kind' \in Kinds /\ i' = 0
         \/ stage = 1 /\ stage' = 2 /\ kind' = kind /\ i' \in 1..Count(kind)
         \/ stage = 2 /\ UNCHANGED << stage, kind, i >>
-Vec == CASE kind = "eap" -> EapVector(EapPool[i])
+Vec == CASE kind = "unknown" -> UnknownAttrVector(i)
+         [] kind = "eap" -> EapVector(EapPool[i])
          [] kind = "code" -> CodeVector(i - 1)
          [] kind = "set" -> SetterVector(SetTypes[i])
          [] kind = "sender" -> IF i <= 6 THEN SenderVector(MacBase(i), (i % Len(KautPool)) + 1)
